@@ -1,4 +1,5 @@
 import SFV.Lemmas.Exec
+import SFV.Gen.StepGuards
 /-! # C04 — executor protocol: the step network terminates, the executor returns or raises correctly
 
 Property theorems only (helper definitions and lemmas live in `SFV/Lemmas/Exec.lean`, the executable
@@ -102,31 +103,36 @@ theorem run_length_bounded {fx : Bool} {N : ENet} {s : St} {acts : List Act}
 
 /-! ## C. Failure: are all steps terminated when `run()` raises? -/
 
-/-- **"When the executor raises every step is terminated" is FALSE of the code as it is.** Witness: two
-independent steps; step 0 raises, the executor reads FAILED on output 0, `_cancel` only marks the executor
-closed, `run()` raises — and step 1 is still running (nobody cancels or awaits it). -/
-theorem failure_all_terminated_false :
+/-- **When the executor raises, every step is terminated** — the full-strength clause, for the code as it is now.
+`Gen.cancelCallsClose` is extracted from `StreamFlowExecutor._cancel` on every run (it is `true` since fix 88472de:
+`_cancel` calls `close()`); `Reachable Gen.cancelCallsClose` are the reachable states of the executor protocol of the
+current source. Once the executor is not collecting any more (closed, returned or raised) every step is terminated.
+This theorem stops compiling if `_cancel` no longer terminates the steps. -/
+theorem failure_all_terminated {N : ENet} {s : St} (hr : Reachable Gen.cancelCallsClose N s) (hp : s.pc ≠ .running) :
+    ∀ i, (s.st i).isSome = true := by
+  have hg : Gen.cancelCallsClose = true := rfl
+  rw [hg] at hr
+  exact fixed_inv_reachable hr hp
+
+/-- the same for any executor whose `_cancel` goes through `close()` (`fixed = true`) -/
+theorem failure_all_terminated_of_closing_cancel {N : ENet} {s : St} (hr : Reachable true N s) (hp : s.pc ≠ .running) :
+    ∀ i, (s.st i).isSome = true :=
+  fixed_inv_reachable hr hp
+
+/-- **Regression guard — false before fix 88472de.** About the OLD definition (`fixed = false`: `_cancel` only
+set `_closed`): two independent steps; step 0 raises, the executor reads FAILED on output 0, `run()` raises — and
+step 1 is still running (nobody cancels or awaits it). -/
+theorem failure_all_terminated_false_before_fix_88472de :
     ∃ (N : ENet) (s : St), N.WF ∧ Reachable false N s ∧ s.pc = .raised ∧ ∃ i, i < N.n ∧ s.st i = none :=
   ⟨N2, runD false N2 [.fail 0, .read 0, .final], N2_wf, reachable_runD (by decide), by decide, 1, by decide,
     by decide⟩
 
-/-- **With the repaired `_cancel` it holds.** Every way of leaving the collecting loop goes through
-`close()`: once the executor is not collecting any more (closed, returned or raised), every step is
-terminated. -/
-theorem failure_all_terminated_fixed {N : ENet} {s : St} (hr : Reachable true N s) (hp : s.pc ≠ .running) :
-    ∀ i, (s.st i).isSome = true :=
-  fixed_inv_reachable hr hp
-
-/-- **What does hold of the code as it is (partial).** In every state — in particular after the executor
-raised — as long as some step is not terminated, some step can terminate by itself and doing so strictly
-decreases the number of running steps: the remaining steps do terminate *if the event loop keeps running
-them*. What is missing with respect to the property: `run()` has already raised at that point (witness
-`failure_all_terminated_false`), nobody awaits or cancels the tasks of these steps, so nothing guarantees
-that they are ever run to their end. -/
-theorem failure_steps_eventually_terminate_partial {N : ENet} (hwf : N.WF) (s : St)
+/-- In every state, as long as some step is not terminated, some step can terminate by itself and doing so strictly
+decreases the number of running steps (with or without the repair): the step network never blocks itself. -/
+theorem unterminated_step_can_finish {fx : Bool} {N : ENet} (hwf : N.WF) (s : St)
     (h : ∃ i, i < N.n ∧ s.st i = none) :
-    ∃ i s', step false N s (.finish i) = some s' ∧ notDone N s' + 1 = notDone N s := by
-  obtain ⟨i, s', hs⟩ := progress (fx := false) hwf s h
+    ∃ i s', step fx N s (.finish i) = some s' ∧ notDone N s' + 1 = notDone N s := by
+  obtain ⟨i, s', hs⟩ := progress (fx := fx) hwf s h
   exact ⟨i, s', hs, step_action_decreases hs rfl⟩
 
 /-! ## Examples: the hypotheses are satisfiable on non-trivial instances -/
@@ -142,7 +148,7 @@ example : (runD false diamond diamondRun).pc = .returned ∧
     (List.range 4).map (runD false diamond diamondRun).st
       = [some .completed, some .completed, some .skipped, some .completed] := by decide
 
-/-- the hypotheses of `progress` / `failure_steps_eventually_terminate_partial` in the middle of a run, and the
+/-- the hypotheses of `progress` / `unterminated_step_can_finish` in the middle of a run, and the
 step they promise (here step 1, not the step 3 that is named in the hypothesis) -/
 example : (∃ i, i < diamond.n ∧ (runD false diamond [.finish 0, .finish 2]).st i = none) ∧
     (step false diamond (runD false diamond [.finish 0, .finish 2]) (.finish 1)).isSome = true ∧
@@ -162,7 +168,7 @@ example : (runD false diamond [.finish 0, .fail 1, .finish 2, .finish 3, .read 0
     (List.range 4).map (runD false diamond [.finish 0, .fail 1, .finish 2, .finish 3, .read 0, .final]).st
       = [some .completed, some .failed, some .skipped, some .failed] := by decide
 
-/-- the witness run of `failure_all_terminated_false`, and the same run with the repaired `_cancel` -/
+/-- the witness run of `failure_all_terminated_false_before_fix_88472de`, and the same run with the repaired `_cancel` -/
 example : (runD false N2 [.fail 0, .read 0, .final]).pc = .raised ∧
     (runD false N2 [.fail 0, .read 0, .final]).st 1 = none ∧
     (runD true N2 [.fail 0, .read 0, .final]).pc = .raised ∧
@@ -189,7 +195,7 @@ example :
       (step true diamond s (.finish 1)).isSome = true :=
   ⟨reachable_runD (by decide), by decide, by decide, by decide⟩
 
-/-- hypotheses of `failure_all_terminated_fixed`: with the repair, reading the failure while step 1 is
+/-- hypotheses of `failure_all_terminated`: with the repair, reading the failure while step 1 is
 still running cancels it -/
 example :
     let s := runD true N2 [.fail 0, .read 0]
